@@ -280,6 +280,9 @@ func runBuilder(r *vt.Run, t vt.TB, s spec) {
 	cols := append([]string{"rowid"}, tt.Spec.ColNames()...)
 	var ops []op
 	ops = append(ops, hlOp("Select(t)", false, func(db *sqlittle.DB, emit func(sqlittle.Row)) error { return db.Select("t", emit, cols...) }))
+	// the same scan asked for fewer columns: none at all (a count of the rows), the first one only
+	ops = append(ops, hlOp("Select(t, no columns)", false, func(db *sqlittle.DB, emit func(sqlittle.Row)) error { return db.Select("t", emit) }))
+	ops = append(ops, hlOp("Select(t, first column)", false, func(db *sqlittle.DB, emit func(sqlittle.Row)) error { return db.Select("t", emit, cols[:1]...) }))
 	ops = append(ops, op{name: "Columns(t)", run: func(d *sdb.Database) ([]string, error) { return sqlittle.VerifWrap(d).Columns("t") }})
 	var rid int64 = 1
 	if len(tt.Rows) > 0 {
